@@ -138,6 +138,17 @@ def code_int_constants(*objs):
             o = o.__func__
         if hasattr(o, "__code__"):
             from_code(o.__code__)
+            # module-level integer constants the function refers to by name (e.g. _BLOCK = 2048)
+            g = getattr(o, "__globals__", {})
+            stack, names = [o.__code__], set()
+            while stack:
+                co = stack.pop()
+                names.update(co.co_names)
+                stack += [c for c in co.co_consts if isinstance(c, types.CodeType)]
+            for nm in names:
+                v = g.get(nm)
+                if isinstance(v, int) and not isinstance(v, bool):
+                    out.add(v)
         elif isinstance(o, type) and depth < 2:
             for v in vars(o).values():
                 visit(v, depth + 1)
